@@ -514,7 +514,8 @@ pub fn run(args: &Args) -> i32 {
     }
     rec.count("directed_cases", directed.len() as u64);
     use rayon::prelude::*;
-    directed.into_par_iter().for_each(|(family, jobs)| {
+    directed.into_par_iter().enumerate().for_each(|(k, (family, jobs))| {
+        let _g = case_guard(200, k as u64);
         judge.jobs(jobs, &family);
         rec.absorb_feats();
     });
